@@ -89,7 +89,7 @@ class Tables(Component):
         return tables_case(tier)
 
     def check(self, case, ctx):
-        L, R = canon.build_table(case["L"]), canon.build_table(case["R"])
+        L, R = canon.build_pair(case)
         lm, rm, M, lk, rk = missing_keys(case)
         who = name_of(case)
         A = call_tables(ctx, case, L, R, False)
@@ -179,7 +179,7 @@ class Rowwise(Component):
         return rowwise_case(tier)
 
     def check(self, case, ctx):
-        L, R = canon.build_table(case["L"]), canon.build_table(case["R"])
+        L, R = canon.build_pair(case)
         lm, rm, M, lk, rk = missing_keys(case)
         cs = case["candset"]
         C = gen.build_candset(cs)
